@@ -61,7 +61,9 @@ MemoFails(op, A, r, meta) ==
   LET key == KeyOf(op, A) IN
   IF key \in DOMAIN memo /\ memo[key].res # ResKey(r)
   THEN (IF memo[key].cfg # meta.cfg THEN Fail("C11", "config_dependent_result")
-        ELSE Fail("C10", "spelling_dependent_result"))
+        ELSE Fail("C10", "spelling_dependent_result")
+             \* C03: "summing an iterator accumulates with exactly these operations" (sum vs the explicit fold)
+             \cup (IF op = "sum" THEN Fail("C03", "sum_is_not_the_fold") ELSE {}))
   ELSE {}
 
 \* ---- relations between different operations (bit-for-bit identities) ---------
